@@ -45,13 +45,18 @@
 (***************************************************************************)
 EXTENDS Naturals, FiniteSets, Sequences
 
-CONSTANTS Writers, MemLimit, L0Trigger, L0Limit, NLevels, T1, Mult, MaxCommits, WakeRule, BottomRule, LevelLoop, RegisterRule
+CONSTANTS Writers, MemLimit, L0Trigger, L0Limit, NLevels, T1, Mult, MaxCommits, WakeRule, BottomRule, LevelLoop, RegisterRule,
+          MaxFail   \* bound on injected flush / compaction failures
 
 ASSUME /\ NLevels >= 2 /\ MemLimit >= 2 /\ L0Limit >= L0Trigger /\ L0Trigger >= 1 /\ T1 >= 1 /\ Mult >= 1
 
-VARIABLES fill, imm, lv, fpermit, lpermit, frun, lrun, fpc, lpc, wpc, sig, shutdown, stop, cpc, commits, last
+VARIABLES fill, imm, lv, fpermit, lpermit, frun, lrun, fpc, lpc, wpc, sig, shutdown, stop, cpc, commits, last,
+          bgerr,    \* a background task has failed: the error handler refuses every further commit (sticky)
+          stallshut, \* stall.rs `shutdown`: set by signal_shutdown (close, or a failed background task)
+          nfail
 
-vars == <<fill, imm, lv, fpermit, lpermit, frun, lrun, fpc, lpc, wpc, sig, shutdown, stop, cpc, commits, last>>
+ovars == <<fill, imm, lv, fpermit, lpermit, frun, lrun, fpc, lpc, wpc, sig, shutdown, stop, cpc, commits, last>>
+vars == <<ovars, bgerr, stallshut, nfail>>
 
 Bottom == NLevels - 1
 Levels == 0 .. Bottom
@@ -105,6 +110,7 @@ Init ==
   /\ wpc = [w \in Writers |-> "idle"] /\ sig = [w \in Writers |-> FALSE]
   /\ shutdown = FALSE /\ stop = FALSE /\ cpc = "open" /\ commits = 0
   /\ last = [w \in Writers |-> "none"]
+  /\ bgerr = FALSE /\ stallshut = FALSE /\ nfail = 0
 
 ----------------------------------------------------------------------------
 (* writers *)
@@ -113,7 +119,7 @@ Init ==
 Begin(w) ==
   /\ wpc[w] = "idle" /\ commits < MaxCommits
   /\ commits' = commits + 1
-  /\ IF shutdown THEN /\ last' = [last EXCEPT ![w] = "err"] /\ UNCHANGED wpc
+  /\ IF shutdown \/ bgerr THEN /\ last' = [last EXCEPT ![w] = "err"] /\ UNCHANGED wpc
      ELSE /\ wpc' = [wpc EXCEPT ![w] = "check"] /\ UNCHANGED last
   /\ UNCHANGED <<fill, imm, lv, fpermit, lpermit, frun, lrun, fpc, lpc, shutdown, stop, cpc, sig>>
 
@@ -121,7 +127,7 @@ Begin(w) ==
 \* arrives after the read still wakes this waiter - reading and registering are one step
 Check(w) ==
   /\ wpc[w] = "check"
-  /\ IF shutdown THEN /\ wpc' = [wpc EXCEPT ![w] = "idle"] /\ last' = [last EXCEPT ![w] = "err"]
+  /\ IF shutdown \/ stallshut THEN /\ wpc' = [wpc EXCEPT ![w] = "idle"] /\ last' = [last EXCEPT ![w] = "err"]
      ELSE IF Stalled(imm, lv) THEN /\ wpc' = [wpc EXCEPT ![w] = "decided"] /\ UNCHANGED last
      ELSE /\ wpc' = [wpc EXCEPT ![w] = "permit"] /\ UNCHANGED last
   /\ sig' = [sig EXCEPT ![w] = FALSE]
@@ -234,16 +240,35 @@ CloseJoin ==
   /\ UNCHANGED <<fill, imm, lv, fpermit, lpermit, frun, lrun, fpc, lpc, wpc, shutdown, stop, commits, last, sig>>
 
 ----------------------------------------------------------------------------
+(* failures of the background work (task.rs error arms): the error handler keeps the error (every later commit is     *)
+(* refused), the stall controller is shut down (stalled writers return PipelineStall), the task goes back to waiting    *)
+FlushFails ==
+  /\ fpc \in {"start", "one"} /\ imm > 0 /\ nfail < MaxFail
+  /\ nfail' = nfail + 1 /\ bgerr' = TRUE /\ stallshut' = TRUE
+  /\ wpc' = Signal(wpc) /\ sig' = SigSet(sig)
+  /\ fpc' = "idle" /\ lpermit' = (lpermit \/ fpc = "one")      \* flush_count > 0 if one flush of this run succeeded
+  /\ UNCHANGED <<fill, imm, lv, fpermit, frun, lrun, lpc, shutdown, stop, cpc, commits, last>>
+
+CompactionFails ==
+  /\ lpc = "start" /\ HasPick(lv) /\ nfail < MaxFail
+  /\ nfail' = nfail + 1 /\ bgerr' = TRUE /\ stallshut' = TRUE
+  /\ wpc' = Signal(wpc) /\ sig' = SigSet(sig)
+  /\ lpc' = "idle"
+  /\ UNCHANGED <<fill, imm, lv, fpermit, lpermit, frun, lrun, fpc, shutdown, stop, cpc, commits, last>>
+
+----------------------------------------------------------------------------
 Task == FNotified \/ FWake \/ LNotified \/ FFirst \/ FMore \/ FIdle \/ LWake \/ LRound \/ LIdle
 Close == CloseBegin \/ CloseDrain \/ CloseStop \/ CloseWaitRun \/ CloseJoin
-Next == (\E w \in Writers : Begin(w) \/ Check(w) \/ Await(w) \/ Write(w)) \/ Task \/ Close
+Running == (\E w \in Writers : Begin(w) \/ Check(w) \/ Await(w) \/ Write(w)) \/ Task \/ Close
+Next == (Running /\ UNCHANGED <<bgerr, stallshut, nfail>>) \/ FlushFails \/ CompactionFails
 
+Same == UNCHANGED <<bgerr, stallshut, nfail>>
 Fairness ==
-  /\ \A w \in Writers : WF_vars(Check(w)) /\ WF_vars(Await(w)) /\ WF_vars(Write(w))
-  /\ WF_vars(FNotified) /\ WF_vars(LNotified)
-  /\ WF_vars(FWake) /\ WF_vars(FFirst) /\ WF_vars(FMore) /\ WF_vars(FIdle)
-  /\ WF_vars(LWake) /\ WF_vars(LRound) /\ WF_vars(LIdle)
-  /\ WF_vars(CloseDrain) /\ WF_vars(CloseStop) /\ WF_vars(CloseWaitRun) /\ WF_vars(CloseJoin)
+  /\ \A w \in Writers : WF_vars(Check(w) /\ Same) /\ WF_vars(Await(w) /\ Same) /\ WF_vars(Write(w) /\ Same)
+  /\ WF_vars(FNotified /\ Same) /\ WF_vars(LNotified /\ Same)
+  /\ WF_vars(FWake /\ Same) /\ WF_vars((FFirst \/ FMore) /\ Same) /\ WF_vars(FIdle /\ Same)
+  /\ WF_vars(LWake /\ Same) /\ WF_vars(LRound /\ Same) /\ WF_vars(LIdle /\ Same)
+  /\ WF_vars(CloseDrain /\ Same) /\ WF_vars(CloseStop /\ Same) /\ WF_vars(CloseWaitRun /\ Same) /\ WF_vars(CloseJoin /\ Same)
 
 Spec == Init /\ [][Next]_vars /\ Fairness
 
@@ -255,15 +280,16 @@ TypeOK ==
   /\ fpermit \in BOOLEAN /\ lpermit \in BOOLEAN /\ frun \in BOOLEAN /\ lrun \in BOOLEAN
   /\ fpc \in {"wait", "woken", "start", "one", "idle", "exit"} /\ lpc \in {"wait", "woken", "start", "idle", "exit"}
   /\ wpc \in [Writers -> {"idle", "check", "decided", "stalled", "permit"}] /\ sig \in [Writers -> BOOLEAN]
+  /\ bgerr \in BOOLEAN /\ stallshut \in BOOLEAN /\ nfail \in 0 .. MaxFail
   /\ cpc \in {"open", "drain", "stop", "waitrun", "join", "done"}
 
 \* The safety core of "no lost wake-up": work that holds writers back is always either being done or scheduled.
 \* (while the engine is open; after stop the tasks exit on purpose and close() flushes by itself)
-FlushScheduled == (~stop /\ imm > 0 /\ fpc \in {"wait", "idle"}) => fpermit
+FlushScheduled == (~stop /\ ~bgerr /\ imm > 0 /\ fpc \in {"wait", "idle"}) => fpermit
 \* once the level task rests, a level-0 backlog at the stall limit must have a wake-up pending or a flush coming that will
 \* produce one
 CompactionScheduled ==
-  (~stop /\ lv[0] >= L0Limit /\ lpc \in {"wait", "idle"}) => (lpermit \/ fpc \in {"woken", "start", "one"} \/ fpermit)
+  (~stop /\ ~bgerr /\ lv[0] >= L0Limit /\ lpc \in {"wait", "idle"}) => (lpermit \/ fpc \in {"woken", "start", "one"} \/ fpermit)
 
 \* how far the immutable queue can overshoot its limit: every writer past the check rotates at most once
 ImmBounded == imm <= MemLimit - 1 + Cardinality(Writers)
@@ -271,7 +297,7 @@ ImmBounded == imm <= MemLimit - 1 + Cardinality(Writers)
 \* a state in which nothing but Begin/Close can ever happen while a writer waits
 Stuck ==
   /\ \E w \in Writers : wpc[w] = "stalled"
-  /\ ~ENABLED (Task \/ (\E w \in Writers : Check(w) \/ Await(w) \/ Write(w)))
+  /\ ~ENABLED ((Task \/ (\E w \in Writers : Check(w) \/ Await(w) \/ Write(w))) /\ UNCHANGED <<bgerr, stallshut, nfail>>)
 NeverStuck == ~shutdown => ~Stuck
 
 \* C17: every commit() returns, close() returns
